@@ -68,6 +68,8 @@ def make_image(rnd, n, sz):
     """random image whose first 4 bytes are the little-endian CRC-32/CKSUM of bytes [68, n*sz)"""
     total = n * sz
     img = bytearray(rnd.getrandbits(8) for _ in range(total))
+    if total < 4:
+        img = bytearray(b"\xff" * total)      # too short to carry its own CRC: only the erased pattern validates
     if total >= 4:
         c = crc32_cksum(bytes(img[68:])) if total > 68 else crc32_cksum(b"")
         img[0:4] = c.to_bytes(4, "little")
